@@ -78,6 +78,38 @@ theorem rebuild_eq_fold_error (gcOn : Bool) : ∀ (l₁ l₂ : List Step) (r : R
       simp only [hs] at h ⊢
       exact ih l₂ r1 e h
 
+
+/-- the server stores a snapshot every `SnapshotInterval` changes, again and again: rebuilding segment by
+    segment (each segment started from the state the previous one produced) -/
+def runSegs (gcOn : Bool) : List (List Step) → Root → Except Err Root
+  | [], r => .ok r
+  | l :: ls, r => match run gcOn l r with
+    | .ok s => runSegs gcOn ls s
+    | .error e => .error e
+
+/-- `rebuild_eq_fold` under repetition: however the log is cut into snapshot segments (any number of cuts, any
+    segment lengths, empty segments included), rebuilding segment by segment is the full fold – success and
+    error alike. -/
+theorem rebuild_segments_eq_fold (gcOn : Bool) : ∀ (ls : List (List Step)) (r : Root),
+    runSegs gcOn ls r = run gcOn ls.flatten r := by
+  intro ls
+  induction ls with
+  | nil => intro r; simp [runSegs, run]
+  | cons l rest ih =>
+    intro r
+    simp only [runSegs, List.flatten_cons]
+    cases h : run gcOn l r with
+    | ok s => simp only []; rw [rebuild_eq_fold gcOn l rest.flatten r s h]; exact ih s
+    | error e => simp only []; rw [rebuild_eq_fold_error gcOn l rest.flatten r e h]
+
+/-- where the cuts fall does not matter: two segmentations of the same log rebuild the same root -/
+theorem rebuild_cut_independent (gcOn : Bool) (ls₁ ls₂ : List (List Step)) (r : Root)
+    (h : ls₁.flatten = ls₂.flatten) : runSegs gcOn ls₁ r = runSegs gcOn ls₂ r := by
+  rw [rebuild_segments_eq_fold, rebuild_segments_eq_fold, h]
+
+example : runSegs false [arrayAddAnchor.take 2, [], arrayAddAnchor.drop 2] Root.init = run false arrayAddAnchor Root.init :=
+  rebuild_cut_independent false _ [arrayAddAnchor] _ (by simp)
+
 /-! ### negation witnesses (by kernel evaluation) -/
 
 /-- REPAIRED in /repo 13fe0442 (kept as documentation of the defect, stated for `onPos = false`):
